@@ -121,7 +121,7 @@ TABLE['C05'] = {
 }
 
 TABLE['C17'] = {
-    'modules': ['contracts.versions'],
+    'modules': ['contracts.versions', 'contracts.pcfiles'],
     'level': 'proof',
     'assumptions': [
         'versions form a dense total order without end points (modelled by the reals); `v in Specifier(op, w)` is the comparison (specs/verorder.py); PEP 440 pre/post-release quirks are outside the model',
